@@ -74,7 +74,11 @@ Inductive case :=
        (exp_panic : bool) (exp_after : option (list byte)) (exp_addr : list byte) (exp_err : bool)
 | CCheck (addr : list byte) (rw : bool) (tcp udp : option (list (N * N))) (isudp : bool)
        (split : option (list byte * list byte * list byte))              (* host port join *)
-       (isip : bool) (atoi : option Z) (exp : bool).
+       (isip : bool) (atoi : option Z) (exp : bool)
+(* a history of several hooked streams on one Sniffer; the expected values of every stream were
+   observed when its replay was looked at, i.e. AFTER other streams had been sniffed: in the model
+   (model/C17_Own.v, fresh cell per call) that is still what sniff_tcp returned *)
+| CSeq (streams : list case).
 
 Definition hp_of (q : option (N * list byte * list byte * list byte))
   : N -> list byte -> list byte -> list byte :=
@@ -100,7 +104,7 @@ Definition hdr_eqb (a : hdr_t) (h : qhdr) (off : N) : bool :=
   (h_version h =? v) && bytes_eqb (h_dcid h) d && bytes_eqb (h_scid h) s &&
   bytes_eqb (h_token h) t && (h_length h =? l) && (off =? o).
 
-Definition check (c : case) : bool :=
+Fixpoint check (c : case) : bool :=
   match c with
   | CTcp sent evs addr dlfail sizes hhost sni exp_panic exp_replay exp_rem exp_addr exp_err =>
       let s := carve sent evs in
@@ -145,6 +149,7 @@ Definition check (c : case) : bool :=
        | _, _ => false
        end) &&
       Bool.eqb (sniff_check is_ip_f atoi_f rw tcp udp isudp addr) exp
+  | CSeq l => forallb check l
   end.
 
 Definition mismatches (l : list case) : list nat := mism_from check 0 l.
